@@ -386,6 +386,17 @@ def install(I):
 
     @model(builtins.next)
     def _next(I, it, *default):
+        if not hasattr(it, "next"):
+            from .heap import ListObj as _L
+
+            if isinstance(it, _L):
+                # a generator expression (the interpreter evaluates it eagerly into a list): next() consumes its first element
+                if len(it):
+                    return list.pop(it, 0)
+                if default:
+                    return default[0]
+                I.raise_py(StopIteration)
+            raise Unsupported(f"next() of {type(it).__name__}")
         try:
             return it.next(I)
         except StopIteration:
